@@ -8,6 +8,7 @@ import (
 	"os/exec"
 	"strconv"
 	"strings"
+	"sync"
 
 	u "github.com/rivo/uniseg"
 )
@@ -227,6 +228,36 @@ func (d *driver) run(lines []string) []string {
 		fatal("driver out of sync: %q %v", s, err)
 	}
 	<-done
+	return res
+}
+
+// runParallel: like run, but large batches are split over several fresh driver processes
+func (d *driver) runParallel(lines []string) []string {
+	const procs = 12
+	if len(lines) < 24000 {
+		return d.run(lines)
+	}
+	res := make([]string, len(lines))
+	chunk := (len(lines) + procs - 1) / procs
+	var wg sync.WaitGroup
+	for p := 0; p < procs; p++ {
+		lo, hi := p*chunk, (p+1)*chunk
+		if lo >= len(lines) {
+			break
+		}
+		if hi > len(lines) {
+			hi = len(lines)
+		}
+		wg.Add(1)
+		go func(lo, hi int) {
+			defer wg.Done()
+			dd := startDriver(d.path)
+			out := dd.run(lines[lo:hi])
+			dd.close()
+			copy(res[lo:hi], out)
+		}(lo, hi)
+	}
+	wg.Wait()
 	return res
 }
 
